@@ -454,7 +454,10 @@ func NewRateLimit(rate int, opts ...ratelimit.Option) ratelimit.Limiter {
 		NewWorld()
 	}
 	W.Limiters++
-	return countingLimiter{ratelimit.New(rate, append(opts, ratelimit.WithClock(vclock{}))...)}
+	// the virtual clock stands in for the library's DEFAULT clock: options of the program come after it and
+	// win, as they do in the real constructor (a program-supplied clock runs on time.Now/time.Sleep, which
+	// the rewriter has put on the virtual clock as well)
+	return countingLimiter{ratelimit.New(rate, append([]ratelimit.Option{ratelimit.WithClock(vclock{})}, opts...)...)}
 }
 
 // ---- standard output ----
